@@ -263,12 +263,41 @@ def stripLit (s : String) : String :=
   let ip := if ip.isEmpty then ['0'] else ip
   String.ofList ((if neg then ['-'] else []) ++ ip ++ rest)
 
+/-- jq 1.7.1 canonical spelling of a literal written with an exponent (decNumber `to-scientific-string`):
+plain notation when the exponent of the coefficient is ≤ 0 and the adjusted exponent ≥ -6, otherwise
+`d.dddE±x`. Only for finite non-zero values of moderate exponent (the rest: no verdict). -/
+def decString (l : String) : Option String :=
+  match parseDecLit l with
+  | none => none
+  | some d =>
+    let ds := (toString d.digits).toList
+    let n := ds.length
+    if d.digits == 0 || d.exp10 > 300 || d.exp10 < -300 then none else
+    -- keep the written coefficient digits (trailing zeros are significant), drop leading zeros
+    let cs := l.toList.filter (fun c => c != '-' && c != '+')
+    let mant := (cs.takeWhile (fun c => c != 'e' && c != 'E')).filter isDigit
+    let mant := mant.dropWhile (· == '0')
+    let ds := if mant.length ≥ n then mant else ds
+    let n := ds.length
+    let sign := if d.neg then "-" else ""
+    let adj : Int := d.exp10 + (n - 1 : Int)
+    if d.exp10 ≤ 0 && adj ≥ -6 then
+      if d.exp10 == 0 then some (sign ++ String.ofList ds)
+      else
+        let pt : Int := n + d.exp10
+        if pt > 0 then some (sign ++ String.ofList (ds.take pt.toNat) ++ "." ++ String.ofList (ds.drop pt.toNat))
+        else some (sign ++ "0." ++ zeros (-pt).toNat ++ String.ofList ds)
+    else
+      let m := String.ofList (ds.take 1) ++ (if n > 1 then "." ++ String.ofList (ds.drop 1) else "")
+      some (sign ++ m ++ "E" ++ (if adj < 0 then "-" else "+") ++ toString adj.natAbs)
+
 def print (n : JNum) : Option String :=
   match n.lit, n.repr with
   | some l, r =>
+    let hasExp := l.any (fun c => c == 'e' || c == 'E')
     (match r with
-     | .flt f => if f.isNaN then some "null" else if l.any (fun c => c == 'e' || c == 'E') then none else some (stripLit l)
-     | .int _ => if l.any (fun c => c == 'e' || c == 'E') then none else some (stripLit l))
+     | .flt f => if f.isNaN then some "null" else if f.isInf then none else if hasExp then decString l else some (stripLit l)
+     | .int _ => if hasExp then decString l else some (stripLit l))
   | none, .int i => some (toString i)
   | none, .flt f =>
     if f.isNaN then some "null"
@@ -351,6 +380,9 @@ def math (name : String) (a : JNum) : Option JNum :=
   | "length" => some (match a.repr with
       | .int i => if inI64 (-i) || i ≥ 0 then ⟨.int (if i < 0 then -i else i), none⟩ else ⟨.flt (intToFloat i).abs, none⟩
       | .flt f => ⟨.flt f.abs, none⟩)
+  | "trunc" => some (match a.repr with
+      | .int i => ⟨.flt (intToFloat i), none⟩
+      | .flt f => ⟨.flt (if f < 0 then f.ceil else f.floor), none⟩)
   | "sqrt" => some ⟨.flt a.toF.sqrt, none⟩
   | "fabs" => some ⟨.flt a.toF.abs, none⟩
   | _ => none
